@@ -184,6 +184,15 @@ func propC14(w *World, r *Report) {
 	}
 	checkXExt(w, r)
 	checkTagPad(w, r)
+	var tagFns []*ssa.Function
+	for _, f := range w.LibFuncs() {
+		pp := fnPkgPath(f)
+		if strings.HasSuffix(pp, "/name") || strings.HasSuffix(pp, "/post") || strings.HasSuffix(pp, "/mac") || strings.HasSuffix(pp, "/opentype/gtab") {
+			tagFns = append(tagFns, f)
+		}
+	}
+	RunIterFresh(w, r, tagFns)
+	RunIterFreshControl(r)
 	RunCacheInputs(w, r, w.LibFuncs())
 	RunEmitAll(w, r)
 	RunControl(r, "cacheinputs", "ctlCacheInputs", RunCacheInputs)
@@ -197,7 +206,9 @@ func propC14(w *World, r *Report) {
 	for _, a := range boundsAssumptions {
 		r.Assumes(a)
 	}
-	RunLosslessFor(w, r, "C14", newBoundsRun(w))
+	br14 := newBoundsRun(w)
+	RunLosslessFor(w, r, "C14", br14)
+	runNarrowBoundIn(w, r, br14, "/name", "/post", "/mac")
 }
 
 func checkXExt(w *World, r *Report) {
